@@ -105,6 +105,17 @@ COMMAND_TIMEOUT = 120
 
 
 ########################################################################
+#
+def one_line(text: object) -> str:
+    """
+    The text of a tagged response is a single line. Error texts often quote
+    what the client sent (eg: a mailbox name given as a literal) which may
+    contain CR or LF.
+    """
+    return str(text).replace("\r", " ").replace("\n", " ")
+
+
+########################################################################
 ########################################################################
 #
 # States that our IMAP client handler can be in. These reflect the valid states
@@ -273,7 +284,7 @@ class BaseClientHandler:
             )
             if self.server and imap_command.command:
                 self.server.num_failed_commands[imap_command.command] += 1
-            result = f"{imap_command.tag} NO {e}\r\n"
+            result = f"{imap_command.tag} NO {one_line(e)}\r\n"
             await self.client.push(result)
             return
         except Bad as e:
@@ -282,7 +293,7 @@ class BaseClientHandler:
             )
             if self.server and imap_command.command:
                 self.server.num_failed_commands[imap_command.command] += 1
-            result = f"{imap_command.tag} BAD {e}\r\n"
+            result = f"{imap_command.tag} BAD {one_line(e)}\r\n"
             await self.client.push(result)
             return
         except TimeoutError:
@@ -325,7 +336,7 @@ class BaseClientHandler:
 
             if self.server and imap_command.command:
                 self.server.num_failed_commands[imap_command.command] += 1
-            result = f"{imap_command.tag} BAD Unhandled exception: {e}"
+            result = f"{imap_command.tag} BAD Unhandled exception: {one_line(e)}"
             try:
                 await self.client.push(result.strip() + "\r\n")
             except Exception:
